@@ -137,7 +137,7 @@ def logJ (X : SO3 K) : M3 K :=
   let theta2 := tan.v.sqNorm
   if Scalar.gt theta2 Scalar.eps then
     let theta := Scalar.sqrt theta2
-    J.add ((M3.smul (nat 1 / theta2 - Scalar.cos (theta / nat 2) / (nat 2 * theta * Scalar.sin (theta / nat 2))) W).mul W)
+    J.add ((M3.smul (Scalar.so3LogJCoeff theta2 theta) W).mul W)
   else J
 
 def composeRaw (X Y : SO3 K) : Quat K :=
